@@ -328,7 +328,16 @@ Proof.
   destruct H as [Hne _]. congruence.
 Qed.
 
-(* more fuel never changes anything: the fuel is a proof device, not a limit of the format *)
+(* database adapters (Scan into a concrete type): same totality *)
+Lemma wkb_scan_no_panic_lemma : forall t bs, is_panic (scan t bs) = false /\ scan t bs <> Err EFuel.
+Proof.
+  intros t bs. unfold scan. pose proof (wkb_dec_no_panic_lemma bs) as Hp.
+  pose proof (wkb_dec_fuel_enough_lemma bs) as Hf.
+  destruct (dec bs) as [[g r]|e|p]; cbn [bind] in *.
+  - destruct (gtype_eqb (geom_type g) t); split; auto; discriminate.
+  - split; [reflexivity|congruence].
+  - cbn in Hp. discriminate.
+Qed.
 
 (* ------------------------------------------------------------------ the validation gate *)
 Section Gate.
@@ -406,7 +415,3 @@ Proof.
   { unfold f2_witness, byte_ok. repeat constructor. }
   split; vm_compute; reflexivity.
 Qed.
-
-(* the unfixed order admits no linear bound at all: one more count byte scales it by 256 as long
-   as the count field allows, so for every constant c a 9-byte input exceeds c * length when
-   c < 2^32 * 16 / 9; stated for the concrete constant of the positive theorem *)
